@@ -238,6 +238,10 @@ func c17DecodeGuarded(co *caseOut, g *c17Guard, t *c17Type, input []byte) (c17WR
 		co.violation("dec", fmt.Sprintf("%s: decoding ends the process (%s)", t.name, st), in, nil)
 		return res, false
 	}
+	if t.name == "p2pmessage" && !res.OK && strings.Contains(res.Err, "lz4: ") && c17ValidCompressedFrame(input) {
+		co.violation("dec", "p2pmessage: a VALID lz4 block is refused by the decompressor", in, map[string]any{"err": res.Err})
+		return res, false
+	}
 	if b := c17AllocBudget(t, len(input)); res.AllocKB<<10 > b {
 		co.violation("dec", fmt.Sprintf("%s: allocation not bounded by the input: an input of a few bytes makes the decoder allocate megabytes", t.name), in,
 			map[string]any{"alloc_kb": res.AllocKB, "ms": res.Ms, "input_len": len(input), "budget_kb": b >> 10})
@@ -536,6 +540,86 @@ func c17UnboundedCount(typ string, b []byte) bool {
 	r := io.NewBinReaderFromBuf(b)
 	n := r.ReadVarUint()
 	return r.Err == nil && n > uint64(len(b))
+}
+
+// reference LZ4 block decoder (format: token, literal length, literals, 2-byte offset, match length), independent of the
+// library: used to tell a corrupt compressed payload from a valid one that the library's decoder refuses (finding F52)
+func c17RefLZ4(src []byte, max int) ([]byte, bool) {
+	var out []byte
+	i := 0
+	for i < len(src) {
+		tok := src[i]
+		i++
+		ll := int(tok >> 4)
+		if ll == 15 {
+			for {
+				if i >= len(src) {
+					return nil, false
+				}
+				x := int(src[i])
+				i++
+				ll += x
+				if x != 255 {
+					break
+				}
+			}
+		}
+		if i+ll > len(src) || len(out)+ll > max {
+			return nil, false
+		}
+		out = append(out, src[i:i+ll]...)
+		i += ll
+		if i >= len(src) {
+			return out, true // the last sequence has literals only
+		}
+		if i+2 > len(src) {
+			return nil, false
+		}
+		off := int(src[i]) | int(src[i+1])<<8
+		i += 2
+		ml := int(tok & 15)
+		if ml == 15 {
+			for {
+				if i >= len(src) {
+					return nil, false
+				}
+				x := int(src[i])
+				i++
+				ml += x
+				if x != 255 {
+					break
+				}
+			}
+		}
+		ml += 4
+		if off == 0 || off > len(out) || len(out)+ml > max {
+			return nil, false
+		}
+		for k := 0; k < ml; k++ {
+			out = append(out, out[len(out)-off])
+		}
+	}
+	return nil, false // a block ends with literals
+}
+
+// a frame whose compressed payload is a valid LZ4 block of exactly the announced size
+func c17ValidCompressedFrame(b []byte) bool {
+	if len(b) < 3 || b[0]&1 == 0 {
+		return false
+	}
+	r := io.NewBinReaderFromBuf(b[2:])
+	l := r.ReadVarUint()
+	if r.Err != nil || l < 4 || l > 0x02000000 || uint64(r.Len()) < l {
+		return false
+	}
+	raw := make([]byte, l)
+	r.ReadBytes(raw)
+	n := binary.LittleEndian.Uint32(raw[:4])
+	if n > 0x02000000 {
+		return false
+	}
+	out, ok := c17RefLZ4(raw[4:], int(n))
+	return ok && len(out) == int(n)
 }
 
 // commands whose payload the frame model does not carry (merkleblock, notary request): frames with them are checked directly only
